@@ -362,6 +362,214 @@ def inside_decision_probes(run: lib.Run) -> None:
                     return
 
 
+DECIDE_TRANSLATED = ("C09_decide_translated: Generated.Src.guard_decide_async (the current source text of Guard._decide_async; the functions run by "
+                     "asyncio.to_thread as outcome parameters, every textual read of self._compiled / self.policy an input of its own) = the dispatch "
+                     "protocol (compiled function present and returns: its value, one shared read `_compiled`, no read of `policy` — the eFn step of "
+                     "Conc.expectedEvalMiss; absent or raised: dispatch on `\"policies\" in <1st read of self.policy>`, evaluation of the <2nd read>; the "
+                     "interpreter's exception propagates; torn-read hazard stated), and Generated.Src.guard_init (Guard.__init__ with _recompute_etag in "
+                     "place) constructs the initial state of the C08/C09 models: generation 0, etag and compiled function computed from the constructor's "
+                     "policy by the functions set_policy uses, `_compiled` assigned whenever the compiler is importable (None only if it raised)")
+
+
+def translated_vs_python(run: lib.Run, facts: dict) -> tuple[bool, str]:
+    """the translated `_decide_async` / `__init__` (Generated.Src.guard_decide_async / guard_init, evaluated by `lake env lean --run
+    Rbacx/Run/SrcEvalDecide.lean`) against the SAME methods compiled from the source text and run by CPython (pytolean_decide.as_python):
+    (1) `_decide_async` on a real event loop with the real `asyncio.to_thread` and `EVAL_LOOP`, stub `decide_policyset` / `decide_policy` and a
+    stub compiled function that answer (a value that names the function and ITS ARGUMENTS) or raise, on an object whose `policy` /
+    `_compiled` yield a DIFFERENT value at every read and log the read — compiled None / returns a dict / a non-dict / None / raises × first
+    read of `policy` a set document / a single policy / None / a number / a str containing "policies" / lists × second read a set / a single
+    document × set evaluator ok / raises × single evaluator ok / raises: value AND order of shared reads; (2) `__init__` + `_recompute_etag`
+    with stub compiler (ok / raises / not importable), `BasicObligationChecker` and `threading.Lock` (ok / raise), serialisable /
+    unserialisable policy, truthy / falsy checker argument, several `strict_types`: all thirteen fields."""
+    import asyncio
+    import hashlib
+    import itertools
+    import subprocess
+    import types
+    from datetime import datetime
+
+    import pytolean_decide as pd
+    import rbacx.core.engine as reng
+    from extractors import src_translation_decide as plug
+    try:
+        src, cfgs, now = plug.configs(real.REPO)
+    except pd.pp.Unsupported as e:
+        return False, str(e)
+    for name in plug.ORDER_OF_TARGETS:
+        if [now[name][k] for k in ("lead", "attrs", "inputs")] != [facts[name][k] for k in ("lead", "attrs", "inputs")]:
+            return False, f"{name}: the signature extracted now differs from the one in Generated.lean"
+    outcome = lambda o: {"ok": proto.enc(o[1])} if o[0] == "ok" else {"raised": True}  # noqa: E731
+    calls = []      # (fn, args, ext, flags, wanted)
+
+    # ---- (1) _decide_async
+    tgt, cfg = cfgs["guard_decide_async"]
+    sig = facts["guard_decide_async"]
+    if sig["attrs"] != ["_compiled#1", "policy#1", "policy#2", "policy#3"] or sig["inputs"] != ["env"]:
+        return False, (f"guard_decide_async: unexpected inputs {sig['attrs']} {sig['inputs']} (the comparison feeds the 1st dynamic read of "
+                       "self.policy to policy#1 and the 2nd to policy#2 / policy#3)")
+    env = {"subject": {"id": "u", "roles": []}, "action": "read", "resource": {"type": "doc", "id": "1"}, "context": {}}
+    firsts = [{"algorithm": "deny-overrides", "policies": []}, {"rules": []}, None, 5, "xpoliciesx", ["policies"], ["x"], {}]
+    seconds = [{"policies": [{"rules": []}], "id": "B-set"}, {"rules": [], "id": "B-single"}]
+    compiled = [("absent",), ("ok", {"decision": "permit", "by": "compiled"}), ("ok", 7), ("ok", None), ("raised",)]
+    loop = asyncio.new_event_loop()
+    try:
+        for comp, a, b, s_out, p_out in itertools.product(compiled, firsts, seconds, ("ok", "raised"), ("ok", "raised")):
+            log: list = []
+
+            def mk(name, out):
+                def f(policy, e):
+                    if out == "raised":
+                        raise RuntimeError(f"{name} raised")
+                    return {"by": name, "policy": policy, "env": e}
+                return f
+
+            def compiled_fn(e, comp=comp):
+                if comp[0] == "raised":
+                    raise RuntimeError("compiled raised")
+                return comp[1]
+            try:
+                fns = pd.as_python(src, tgt, cfg, vars(reng), overrides={"decide_policyset": mk("set", s_out), "decide_policy": mk("single", p_out)})
+            except pd.pp.Unsupported as e:
+                return False, f"guard_decide_async: {e}"
+
+            class Me:
+                _reads = {"policy": [a, b, "THIRD-READ"], "_compiled": [None if comp[0] == "absent" else compiled_fn, "SECOND-READ"]}
+
+                def __getattribute__(self, name, log=log):
+                    if name in plug.SHARED:
+                        log.append(["rd", name])
+                        return type(self)._reads[name].pop(0)
+                    return object.__getattribute__(self, name)
+            try:
+                got = loop.run_until_complete(fns["_decide_async"](Me(), copy.deepcopy(env)))
+                want = {"out": got, "trace": log}
+            except Exception as e:  # noqa: BLE001
+                want = {"raised": type(e).__name__, "trace": log}
+            fn_val = None if comp[0] == "absent" else "<compiled fn>"
+            ext = {"run_compiled": [[[proto.enc(fn_val), proto.enc(env)], outcome(comp)]] if comp[0] != "absent" else {"raised": True},
+                   # one row per value a read of self.policy can yield: the answer names the policy the evaluator was handed
+                   "decide_policyset": [[[proto.enc(x), proto.enc(env)], outcome((s_out, {"by": "set", "policy": x, "env": env}))] for x in (b, a, "THIRD-READ")],
+                   "decide_policy": [[[proto.enc(x), proto.enc(env)], outcome((p_out, {"by": "single", "policy": x, "env": env}))] for x in (b, a, "THIRD-READ")]}
+            calls.append(("guard_decide_async", [fn_val, a, b, b, env], ext, {}, want))
+    finally:
+        loop.close()
+    n_decide = len(calls)
+
+    # ---- (2) __init__
+    tgt, cfg = cfgs["guard_init"]
+    sig = facts["guard_init"]
+    params = ["policy", "logger_sink", "metrics", "obligation_checker", "role_resolver", "relationship_checker", "cache", "cache_ttl", "strict_types"]
+    if sig["attrs"] != plug.INIT_FIELDS or sig["inputs"] != params or sig["outputs"] != ["self." + a for a in plug.INIT_FIELDS]:
+        return False, f"guard_init: unexpected fields / parameters {sig['attrs']} {sig['inputs']}"
+    pols = [("P-json", {"rules": [{"id": "r", "effect": "permit"}], "algorithm": "deny-overrides"}),
+            ("P-set", {"policies": [{"rules": []}]}), ("P-datetime", {"rules": [], "issued": datetime(2024, 6, 1)})]
+    for (pname, pol_), comp, chk, basic, lock, strict in itertools.product(pols, ("ok", "raised", "absent"), ("CHK", "", None), ("ok", "raised"),
+                                                                         ("ok", "raised"), (False, True, 0, "yes", None)):
+        if run.tier == "quick" and strict not in (False, "yes") and (basic, lock) != ("ok", "ok"):
+            continue
+
+        def compile_stub(p, comp=comp, pname=pname):
+            if comp == "raised":
+                raise RuntimeError("compile raised")
+            return f"FN({pname})"
+
+        def ctor(name, how):
+            def f():
+                if how == "raised":
+                    raise RuntimeError(f"{name} raised")
+                return f"<{name}>"
+            return f
+        try:
+            fns = pd.as_python(src, tgt, cfg, vars(reng), overrides={"compile_policy": None if comp == "absent" else compile_stub,
+                                                                     "BasicObligationChecker": ctor("basic", basic),
+                                                                     "threading": types.SimpleNamespace(Lock=ctor("lock", lock))})
+        except pd.pp.Unsupported as e:
+            return False, f"guard_init: {e}"
+
+        class Obj:
+            _recompute_etag = fns["_recompute_etag"]
+        me = Obj()
+        kwargs = {"logger_sink": "SINK", "metrics": None, "obligation_checker": chk, "role_resolver": "RR", "relationship_checker": None,
+                  "cache": "CACHE", "cache_ttl": 300, "strict_types": strict}
+        try:
+            fns["__init__"](me, pol_, **kwargs)
+            want = {"out": [getattr(me, a) for a in plug.INIT_FIELDS], "trace": []}
+        except RuntimeError as e:
+            want = {"raised": str(e), "trace": []}
+        try:
+            text = ("ok", json.dumps(pol_, sort_keys=True))
+            digest = ("ok", hashlib.sha3_256(text[1].encode("utf-8")).hexdigest())
+        except Exception:  # noqa: BLE001
+            text, digest = ("raised",), ("raised",)
+        ext = {"dumps_sorted_utf8": outcome(text), "sha3_256_hex": outcome(digest),
+               "compile_policy": {"raised": True} if comp != "ok" else {"ok": f"FN({pname})"},
+               "new_basic_checker": outcome((basic, "<basic>")), "new_lock": outcome((lock, "<lock>"))}
+        prior = [f"PRIOR-{i}" for i in range(len(plug.INIT_FIELDS))]
+        calls.append(("guard_init", prior + [pol_] + [kwargs[p] for p in params[1:]], ext, {"compile_policy_present": comp != "absent"}, want))
+    n_init = len(calls) - n_decide
+
+    lines = [json.dumps({"fn": fn, "args": [proto.enc(a) for a in args], "ext": ext, "flags": flags}) for fn, args, ext, flags, _ in calls]
+    p = subprocess.run(["lake", "env", "lean", "--run", "Rbacx/Run/SrcEvalDecide.lean"], cwd=lib.LEAN, input="\n".join(lines) + "\n",
+                       capture_output=True, text=True, timeout=1800)
+    outs = [ln for ln in p.stdout.split("\n") if ln]
+    if p.returncode != 0 or len(outs) != len(lines):
+        return False, "SrcEvalDecide: " + (p.stderr or p.stdout)[-800:]
+    bad = 0
+    for (fn, args, ext, flags, want), ln in zip(calls, outs):
+        got = json.loads(ln)
+        run.count(f"translated-decide: {fn}")
+        w = {"trace": want["trace"], **({"raised": True} if "raised" in want else {"out": proto.enc(want["out"])})}
+        if got != w:
+            bad += 1
+            if bad == 1:
+                run.disagreements.append({"part": "translated source vs python", "target": fn, "args": args, "outcomes": ext, "flags": flags,
+                                          "impl": {"python": w}, "model": got,
+                                          "what": f"the translated {fn} (Generated.Src) and the same method run by CPython differ"})
+    run.evaluations += len(calls)
+    return bad == 0, (f"{bad} of {len(calls)} evaluations differ" if bad else
+                      f"agree on {len(calls)} evaluations ({n_decide} _decide_async runs, {n_init} constructor runs)")
+
+
+def compiled_installed_probe(run: lib.Run) -> None:
+    """what `guard_init_compiled_assigned` / `guard_set_policy_eq` leave to the real compiler: on the policies the schedules use (single
+    policies AND sets) the compiler is importable and does not raise, so `_compiled` is a function after `__init__` and after
+    `set_policy` — the evaluator then takes the path with ONE shared read (`_compiled`), the only one the interleaving model has.  A
+    policy for which no compiled function is installed is a broken correspondence (the fallback reads `self.policy` twice)."""
+    import rbacx.core.engine as reng
+    for i in (1, 2, 3, 101, 103):
+        g = Guard(pol(i))
+        first = object.__getattribute__(g, "_compiled")
+        g.set_policy(pol(i + 1))
+        second = object.__getattribute__(g, "_compiled")
+        run.evaluations += 1
+        run.count("compiled-installed-probe")
+        if reng.compile_policy is None or first is None or second is None:
+            run.disagreements.append({"part": "compiled function installed", "policy": pol(i) if first is None else pol(i + 1),
+                                      "what": "no compiled function is installed for this policy (after __init__ / set_policy): evaluations take the "
+                                              "interpreter fallback of _decide_async, whose two separate reads of self.policy the interleaving model "
+                                              "Rbacx.Conc does not have"})
+            return
+
+
+def decide_obligation(run: lib.Run, audit: dict, differential: bool = True) -> tuple[bool, bool, str]:
+    """run and register the per-run obligation C09_decide_translated (and, with `differential`, the comparison with CPython); returns
+    (obligation discharged, comparison ok, Lean's message or the comparison's)"""
+    tr = audit["facts"].get("translated_decide")
+    untranslatable = isinstance(tr, dict) and "extraction_failed" in tr
+    ok_tr, detail_tr = lib.run_obligation("C09_decide_translated")
+    run.obligation(DECIDE_TRANSLATED, ok_tr, "discharged" if ok_tr else (str(tr["extraction_failed"]) if untranslatable else detail_tr))
+    if not differential:
+        return ok_tr, True, detail_tr
+    if untranslatable or not isinstance(tr, dict):
+        ok_py, detail_py = True, "skipped: _decide_async / __init__ are not in the translatable subset (see C09_decide_translated)"
+    else:
+        ok_py, detail_py = translated_vs_python(run, tr)
+    run.obligation("translated _decide_async / __init__ evaluate like the same methods run by CPython (pytolean_decide + Model/PyDecide.lean vs CPython: "
+                   "asyncio.to_thread outcomes, the try/except around the compiled function inside try/finally, `in` raising on a non-container, "
+                   "which read of self.policy feeds which evaluator, the constructor's fields)", ok_py, detail_py)
+    return ok_tr, ok_py, (detail_tr if not ok_tr else detail_py)
+
+
 def check(run: lib.Run, audit: dict) -> int:
     run.rule = ("schedules of access steps on real threads: 1 evaluator × 1 set_policy (all schedules with ≤2 (quick) / ≤4 (thorough) pre-emptions), "
                 "2 evaluations × A→B→A and 2 evaluators (two requests) × 1 set_policy (≤1 / ≤2 pre-emptions), a policy set replaced by a single "
@@ -386,9 +594,29 @@ def check(run: lib.Run, audit: dict) -> int:
                    "(engine_cache_proto_gen_moved / _stored); Generated.Src.guard_set_policy is the updater program Conc.expectedSetPolicy inside one "
                    "lock block, for every outcome of serialiser, sha3, compiler and cache.clear (guard_set_policy_eq / _program / _locked)",
                    ok_tr, "discharged" if ok_tr else (str(tr["extraction_failed"]) if isinstance(tr, dict) and "extraction_failed" in tr else detail_tr))
-    ok_shape, ok = ok, ok and ok_tr
+    # … and of _decide_async / __init__: the evaluator's read of `_compiled` (and NO read of `policy`) when the compiled function answers,
+    # the fallback's two separate reads of `policy`, the consistently installed initial state
+    ok_dec, ok_dec_py, detail_dec = decide_obligation(run, audit)
+    if not ok_dec_py and not any(d.get("part") == "translated source vs python" for d in run.disagreements):
+        run.disagreements.append({"part": "translated source vs python", "what": detail_dec})
+    compiled_installed_probe(run)
+    # … and the evaluator's whole ACCESS PROGRAM from the text: the cache range with lock blocks / generation reads as effects, `_cache_key`
+    # expanded to the reads it makes, `_decide_async` to the accesses of its translation = Conc.expectedEvalMiss / expectedEvalHit
+    prog = (audit["facts"].get("translated_decide") or {}).get("engine_eval_program") if isinstance(audit["facts"].get("translated_decide"), dict) else None
+    ok_prog, detail_prog = lib.run_obligation("C09_eval_program")
+    run.obligation("C09_eval_program: Generated.Src.engine_eval_program (the cache range of Guard._evaluate_core_async with lock acquire/release and the "
+                   "reads of _policy_gen as effects, _cache_key / _decide_async as labelled calls), with _cache_key expanded to Generated.Src.cacheKeyReads "
+                   "(what _cache_key reads of self, from the text) and _decide_async to the access sequence of Generated.Src.guard_decide_async, is "
+                   "Conc.expectedEvalMiss (miss, generation unchanged) / Conc.expectedEvalHit (hit), for every outcome of every collaborator; generation "
+                   "moved: no cache.set, lock released", ok_prog,
+                   "discharged" if ok_prog else (str(prog["failed"]) if isinstance(prog, dict) and "failed" in prog else detail_prog))
+    ok_shape, ok = ok, ok and ok_tr and ok_dec and ok_prog
     if ok_shape and not ok_tr:
         detail = detail_tr
+    elif ok_shape and not ok_dec:
+        detail = detail_dec
+    elif ok_shape and not ok_prog:
+        detail = detail_prog
     run_cases(run, audit, scale=run.boost)
     inside_decision_probes(run)
     violations = []
@@ -401,6 +629,16 @@ def check(run: lib.Run, audit: dict) -> int:
     elif not ok:
         path = run.write_replay("obligation", {"what": ("per-run obligation Rbacx/Run/C09_shape.lean no longer checks: the Guard's shared-access order is "
                                                         "not the one theorems Rbacx.C09.* are about" if not ok_shape else
+                                                        "per-run obligation Rbacx/Run/C09_decide_translated.lean no longer checks: the translated source of "
+                                                        "Guard._decide_async / Guard.__init__ is not proved to be the dispatch the evaluator program of "
+                                                        "Rbacx.Conc assumes (the compiled function's value after ONE read of _compiled and no read of policy; "
+                                                        "fallback: dispatch on the first read of self.policy, evaluation of the second, exceptions propagate) / "
+                                                        "the consistently installed initial state (generation 0, etag and compiled function of the "
+                                                        "constructor's policy)" if ok_tr and not ok_dec else
+                                                        "per-run obligation Rbacx/Run/C09_eval_program.lean no longer checks: the access program of the "
+                                                        "evaluation read off the source text (lock blocks, generation reads, the read of policy_etag inside "
+                                                        "_cache_key, the lookup, the accesses of _decide_async, the conditional store) is not "
+                                                        "Conc.expectedEvalMiss / expectedEvalHit, the programs theorems Rbacx.C09.* are about" if ok_tr else
                                                         "per-run obligation Rbacx/Run/C08_translated.lean no longer checks: the translated source of the "
                                                         "cache range of the evaluation / of set_policy is not proved to be the evaluator / updater program "
                                                         "theorems Rbacx.C09.* are about (store only if the generation is unchanged; bump, publish, clear "
@@ -423,7 +661,13 @@ def replay(run: lib.Run, audit: dict, path: str) -> int:
         print("now:", json.dumps(now[0], default=str)[:2000] if now else "every paused evaluation returned its own request's decision")
         print("recorded:", json.dumps(c, default=str)[:2000])
         return 1 if now else 0
-    if c:
+    if c and c.get("part") in ("translated source vs python", "compiled function installed"):
+        print("recorded:", json.dumps(c, default=str)[:2000])
+        if c["part"] == "compiled function installed":
+            compiled_installed_probe(run)
+            print("now:", run.disagreements[:1] or "a compiled function is installed for every probed policy")
+        return 0
+    if c and "p0" in c:
         snap = run_real(c["p0"], c["progs"], c["schedule"], c["cache"])
         print("now:", snap, "->", spec_check(c["p0"], c["progs"], snap))
     return 0
